@@ -239,8 +239,7 @@ def gexInit (c : Env) (st : GexSt) (m : Bytes) (x : Nat) : Res GexSt :=
         let K := pyPow e x p.toNat
         let hin := encStr c.remoteVersion ++ encStr c.localVersion ++ encStr c.remoteKexInit ++
           encStr c.localKexInit ++ encStr c.hostKey ++
-          (if st.oldStyle then [] else be32 st.minBits) ++ be32 st.prefBits ++
-          (if st.oldStyle then [] else be32 st.maxBits) ++
+          gexSizes st.oldStyle st.minBits st.prefBits st.maxBits ++
           encMpint p ++ encMpint g ++ encMpint e ++ encMpint f ++ encMpint K
         let H := c.hash hin
         let sig := c.sign H
@@ -264,8 +263,7 @@ def gexReply (c : Env) (st : GexSt) (m : Bytes) : Res GexSt :=
         let K := pyPow f x p.toNat
         let hin := encStr c.localVersion ++ encStr c.remoteVersion ++ encStr c.localKexInit ++
           encStr c.remoteKexInit ++ encStr hostKey ++
-          (if st.oldStyle then [] else be32 st.minBits) ++ be32 st.prefBits ++
-          (if st.oldStyle then [] else be32 st.maxBits) ++
+          gexSizes st.oldStyle st.minBits st.prefBits st.maxBits ++
           encMpint p ++ encMpint g ++ encMpint e ++ encMpint f ++ encMpint K
         let H := c.hash hin
         if c.verify hostKey H sig then
@@ -503,18 +501,18 @@ def toyVerify (algo hostKey H sig : Bytes) : Bool := sig == toySign algo hostKey
 
 def toyQ : Nat := 2305843009213693951   -- 2^61 - 1
 
-/-- toy "NIST" curve: a point is `04 ‖ v` with 16 bytes of `v`, valid iff `0 < v < toyQ`;
+/-- toy "NIST" curve: a point is `04 ‖ v` with 16 bytes of `v`, valid ("on the curve") iff `v < toyQ`;
     the shared secret is `v^d mod toyQ` in 8 bytes -/
 def toyNist : Curve where
-  decode b := b.length == 17 && b.head? == some 4 && decide (0 < beVal (b.drop 1)) && decide (beVal (b.drop 1) < toyQ)
+  decode b := b.length == 17 && b.head? == some 4 && decide (beVal (b.drop 1) < toyQ)
   pub d := 4 :: beBytes 16 (powMod 3 d toyQ)
   exchange d pt := .ok (beBytes 8 (powMod (beVal (pt.drop 1)) d toyQ))
 
-/-- toy "X25519": a point is any 32 bytes `v`; the library itself refuses `v ≡ 1`; the shared
-    secret is `v^d mod toyQ` in 32 bytes (all-zero for `v ≡ 0`) -/
+/-- toy "X25519": a point is any 32 bytes `v`; the library itself refuses the non-canonical
+    `v = toyQ + 1`; the shared secret is `v^d mod toyQ` in 32 bytes (all-zero for `v ≡ 0`) -/
 def toyX : Curve where
   decode b := b.length == 32
   pub d := beBytes 32 (powMod 3 d toyQ)
-  exchange d pt := if beVal pt % toyQ = 1 then .error .value else .ok (beBytes 32 (powMod (beVal pt) d toyQ))
+  exchange d pt := if beVal pt = toyQ + 1 then .error .value else .ok (beBytes 32 (powMod (beVal pt) d toyQ))
 
 end PV.Kex
